@@ -2,6 +2,7 @@ import CDVProofs.ReadSame
 import CDVProofs.NormSpec
 import CDVProofs.Props.C03Full
 import CDVProofs.AddLineSome
+import CDVProofs.FinalArgs
 /-! # CPython reads `from_code(c).to_code()` exactly as it reads `c` — instructions, operands and lines -/
 namespace CDV
 
@@ -50,10 +51,10 @@ theorem decoded_reads_identically_full (v : Ver) (T : OpTable) (F : FlagTable) (
     (htbcOld : v.is310 = false → ∀ cs, LT.collapse false (LT.bytesToItems lt) = some cs → ∀ c ∈ cs, c.bc % 2 = 0)
     (hT : ∀ op, T.get op = .ext → op = EXTENDED_ARG)
     (hrne : Spec.read v T (.mk argc pos kw nl ss fl fln code lt fname name names varnames freevars cellvars consts) ≠ [])
-    (hfit : ∀ args0 args fuel, relax v d.blocks.flatten (blockStarts d.blocks 0) fuel args0 = .ok args →
-      ∀ p ∈ d.blocks.flatten.zip args, Encodable p.1 p.2)
     (henc : fromCodeDataGo v F enc d = .ok c') :
     Spec.read v T c' = Spec.read v T (.mk argc pos kw nl ss fl fln code lt fname name names varnames freevars cellvars consts) := by
+  have hfit := decoded_fits v T F dec argc pos kw nl ss fl fln code lt fname name names varnames freevars cellvars consts d h hlen hnodup
+    hcode hcomp hpre hmin hjs hcn hfn
   have hal : v.is310 = false → ∀ a, d.addLine = some a → a.line.isSome = true := fun hv =>
     decoded_addLine_some v T F dec argc pos kw nl ss fl fln code lt fname name names varnames freevars cellvars consts d h hv hteven htbytes (htbcOld hv)
   have hoa := decoded_reads_identically v T F dec enc argc pos kw nl ss fl fln code lt fname name names varnames freevars cellvars consts d c'
@@ -62,7 +63,7 @@ theorem decoded_reads_identically_full (v : Ver) (T : OpTable) (F : FlagTable) (
     decode_reads_like_cpython v T F dec argc pos kw nl ss fl fln code lt fname name names varnames freevars cellvars consts d h
       hcode hpre hvalid hteven htbytes htbc htbcOld
   subst hd
-  simp only [CodeData.blocks, CodeData.addLine] at hfit hal
+  simp only [CodeData.blocks, CodeData.addLine, CodeData.addArgs, CodeData.freevars, CodeData.type] at hfit hal
   -- facts about the decoded blocks
   obtain ⟨lm, constants2, tp2, ann2, nested2, args2, st0, st', raws, ois, blocks2, al2, aa2, _, _, _, hn, hvn, hcv, hcs, _, hraws, hdecI, hbl, _, hd2⟩ :=
     toCodeDataGo_decompose v T F dec argc pos kw nl ss fl fln code lt fname name names varnames freevars cellvars consts _ h
